@@ -249,7 +249,10 @@ class AssociateIdsTask(Task):
         c.ob_prefix = "C12/"
         fi = repo.func(ASSOCIATE)
         loops = sorted([n for n in ast.walk(fi.node) if isinstance(n, (ast.For, ast.While))], key=lambda n: (n.lineno, n.col_offset))
-        idl = [i for i, n in enumerate(loops) if isinstance(n, ast.For) and "enumerate(contexts)" in ast.unparse(n.iter)]
+        # the loop that numbers the contexts: the for-loop whose body assigns a `.context_id`
+        idl = [i for i, n in enumerate(loops) if isinstance(n, ast.For) and any(
+            isinstance(t, ast.Attribute) and t.attr == "context_id" for st in ast.walk(n) if isinstance(st, (ast.Assign, ast.AugAssign, ast.AnnAssign))
+            for t in (st.targets if isinstance(st, ast.Assign) else [st.target]))]
         if len(idl) != 1:
             raise Unsupported("associate: the loop that numbers the contexts was not found")
         c.loop_specs[(ASSOCIATE, idl[0])] = IdLoop(self)
